@@ -261,6 +261,9 @@ impl Model {
                 let bad = !ev.viol.is_empty();
                 out.extend(ev.viol);
                 self.keys.insert(key.clone(), ev.ki);
+                // the expiry the store recorded is judged against the model's expectation before any
+                // re-synchronisation adopts it (a command can be wrong in several respects at once)
+                self.check_expiry_bounds(c.after, &mut out);
                 if bad {
                     self.resync_key(&key, c.after);
                 } else {
@@ -273,7 +276,6 @@ impl Model {
                 }
                 let storeish = matches!(c.cmd, Cmd::Store { .. } | Cmd::Concat { .. } | Cmd::Delta { .. });
                 self.check_untouched(Some(&key), c, &mut out, storeish);
-                self.check_expiry_bounds(c.after, &mut out);
             }
         }
         // C14 bound at rest
